@@ -70,7 +70,8 @@ def ops(draw):
         if draw(st.booleans()):
             o['filter'] = draw(catlists)
     elif name == 'metacomments':
-        o['key'] = draw(st.sampled_from([None, 'COM', 'OTL', 'ABSENT', '']))
+        # '@n' = the n-th reference-record key that actually occurs in the document (resolved when applied)
+        o['key'] = draw(st.sampled_from([None, 'COM', 'OTL', 'ABSENT', '', '@0', '@0', '@1', '@2']))
         o['clear'] = draw(st.booleans())
     elif name == 'spine_types':
         o['headers'] = draw(st.one_of(st.none(), st.lists(st.sampled_from(D.ALL_TYPES), max_size=3, unique=True)))
@@ -167,7 +168,11 @@ def apply(doc, o, state):
         elif name == 'frequencies':
             r = doc.frequencies(flt)
         elif name == 'metacomments':
-            r = doc.get_metacomments(o['key'], clear=o['clear'])
+            key = o['key']
+            if isinstance(key, str) and key.startswith('@'):
+                keys = state.get('doc_keys') or [None]
+                key = keys[int(key[1:]) % len(keys)]
+            r = doc.get_metacomments(key, clear=o['clear'])
         elif name == 'spine_types':
             r = kp.spine_types(doc, o['headers'])
         elif name == 'mono':
@@ -217,7 +222,14 @@ class Session:
         if d:
             raise Bad('two-imports-differ', f'two imports of the same text differ: {d}\n{self.text}')
         self.consts0 = CONSTS0
-        self.state = {}
+        keys = []
+        for row in doc['rows']:
+            if 'g' in row and row['g'].startswith('!!!') and ':' in row['g']:
+                k = row['g'][3:].split(':')[0]
+                if k not in keys:
+                    keys.append(k)
+        self.doc_keys = keys
+        self.state = {'doc_keys': keys}
         self.fresh_state = {}
         self.n = 0
 
@@ -225,7 +237,7 @@ class Session:
         self.n += 1
         got = apply(self.kdoc, o, self.state)
         fresh_doc, _ = kp.loads(self.text)
-        ref = apply(fresh_doc, o, {})  # a fresh document AND a fresh caller-side options object
+        ref = apply(fresh_doc, o, {'doc_keys': self.doc_keys})  # a fresh document AND a fresh caller-side options object
         if isinstance(got, list) and got and got[0] in ('ARG-MUTATED', 'OPTIONS-MUTATED'):
             raise Bad('argument-mutated', f'step {self.n} {o}: the call changed an object owned by the caller: {got[1]} -> {got[2]}')
         if o['op'] == 'export_options':
@@ -281,9 +293,14 @@ def check_history(case):
 
 @st.composite
 def start_docs(draw):
+    from .. import grammar as G
     if draw(st.booleans()):
-        return draw(D.measure_documents(D.mprofile(others=True)))
-    return draw(D.documents(D.profile('full')))
+        doc = draw(D.measure_documents(D.mprofile(others=True)))
+    else:
+        doc = draw(D.documents(D.profile('full')))
+    for _ in range(draw(st.integers(0, 3))):  # reference records and other global comments anywhere
+        doc['rows'].insert(draw(st.integers(0, len(doc['rows']))), {'g': draw(G.global_comments())})
+    return doc
 
 
 class ReadOnlyHistory(RuleBasedStateMachine):
